@@ -797,22 +797,25 @@ structure WorldWF (w : World) : Prop where
   st_ids : ∀ s st, w.states s = some st → (ids st.nets).Nodup
   st_names : ∀ s st, w.states s = some st → (keys st.nets).Nodup
   mods : ∀ s id, w.modules s = some id → (w.heap.nets id).isSome
+  st_noud : ∀ s st, w.states s = some st → ∀ p ∈ st.nets, p.1 ≠ "unitary_dict"
 
 theorem WorldWF.empty : WorldWF World.empty :=
   ⟨HeapWF.empty, fun _ _ h => by simp [World.empty] at h, fun _ _ h => by simp [World.empty] at h,
-   fun _ _ h => by simp [World.empty] at h, fun _ _ h => by simp [World.empty] at h⟩
+   fun _ _ h => by simp [World.empty] at h, fun _ _ h => by simp [World.empty] at h,
+   fun _ _ h => by simp [World.empty] at h⟩
 
 /-- a state record that may be bound to a caller variable in heap `h` -/
 structure StateOK (h : Heap) (st : NState) : Prop where
   nets : ∀ p ∈ st.nets, (h.nets p.2).isSome
   idsNodup : (ids st.nets).Nodup
   names : (keys st.nets).Nodup
+  noUD : ∀ p ∈ st.nets, p.1 ≠ "unitary_dict"
 
 theorem StateOK.grow {h h' : Heap} {st : NState} (a : StateOK h st) (g : NetsGrow h h') : StateOK h' st :=
-  ⟨fun p hp => g _ (a.nets p hp), a.idsNodup, a.names⟩
+  ⟨fun p hp => g _ (a.nets p hp), a.idsNodup, a.names, a.noUD⟩
 
 theorem WorldWF.stateOK {w : World} (wf : WorldWF w) {s : Nat} {st : NState} (hs : w.states s = some st) :
-    StateOK w.heap st := ⟨wf.st_nets s st hs, wf.st_ids s st hs, wf.st_names s st hs⟩
+    StateOK w.heap st := ⟨wf.st_nets s st hs, wf.st_ids s st hs, wf.st_names s st hs, wf.st_noud s st hs⟩
 
 /-- the general shape of a step: a new well-formed heap in which no network disappeared, possibly one
 state variable and one module variable rebound, any change to metadata variables and files -/
@@ -827,7 +830,7 @@ theorem WorldWF.update {w : World} (wf : WorldWF w) (h' : Heap) (hwf : HeapWF h'
     · exact (wf.stateOK h1).grow g
     · exact h1
   refine ⟨hwf, fun s st hs => (key s st hs).nets, fun s st hs => (key s st hs).idsNodup,
-    fun s st hs => (key s st hs).names, ?_⟩
+    fun s st hs => (key s st hs).names, ?_, fun s st hs => (key s st hs).noUD⟩
   intro s id hm
   rcases hmod s id hm with h1 | h1
   · exact g _ (wf.mods s id h1)
@@ -874,13 +877,13 @@ theorem constructSizes_facts {h : Heap} (wf : HeapWF h) (kind : Kind) (nv : Nat)
   | pos =>
     simp only [constructSizes, netKindOf]
     obtain ⟨a1, a2, a3, _, _⟩ := newNet_facts wf .binary nv nh na (rand.getD 0 [])
-    refine ⟨a1, a2, ⟨?_, by simp [ids], by simp [keys]⟩⟩
+    refine ⟨a1, a2, ⟨?_, by simp [ids], by simp [keys], by intro p hp; simp at hp; subst hp; dsimp only; decide⟩⟩
     intro p hp; simp at hp; subst hp; exact a3
   | cplx =>
     simp only [constructSizes, netKindOf]
     obtain ⟨a1, a2, a3, a4, a5⟩ := newNet_facts wf .binary nv nh na (rand.getD 0 [])
     obtain ⟨b1, b2, b3, b4, _⟩ := newNet_facts a1 .binary nv nh na (rand.getD 1 [])
-    refine ⟨b1, a2.trans b2, ⟨?_, ?_, by simp [keys]⟩⟩
+    refine ⟨b1, a2.trans b2, ⟨?_, ?_, by simp [keys], by intro p hp; simp at hp; rcases hp with rfl | rfl <;> (dsimp only; decide)⟩⟩
     · intro p hp
       simp at hp
       rcases hp with hp | hp <;> subst hp
@@ -893,7 +896,7 @@ theorem constructSizes_facts {h : Heap} (wf : HeapWF h) (kind : Kind) (nv : Nat)
     simp only [constructSizes, netKindOf]
     obtain ⟨a1, a2, a3, a4, a5⟩ := newNet_facts wf .purif nv nh na (rand.getD 0 [])
     obtain ⟨b1, b2, b3, b4, _⟩ := newNet_facts a1 .purif nv nh na (rand.getD 1 [])
-    refine ⟨b1, a2.trans b2, ⟨?_, ?_, by simp [keys]⟩⟩
+    refine ⟨b1, a2.trans b2, ⟨?_, ?_, by simp [keys], by intro p hp; simp at hp; rcases hp with rfl | rfl <;> (dsimp only; decide)⟩⟩
     · intro p hp
       simp at hp
       rcases hp with hp | hp <;> subst hp
@@ -918,12 +921,12 @@ theorem constructFrom_facts {h : Heap} (wf : HeapWF h) (kind : Kind) (mid : Nat)
     | pos =>
       simp only [Except.ok.injEq, Prod.mk.injEq] at hc
       obtain ⟨rfl, rfl⟩ := hc
-      refine ⟨wf, NetsGrow.refl _, ⟨?_, by simp [ids], by simp [keys]⟩⟩
+      refine ⟨wf, NetsGrow.refl _, ⟨?_, by simp [ids], by simp [keys], by intro p hp; simp at hp; subst hp; dsimp only; decide⟩⟩
       intro p hp; simp at hp; subst hp; simp [hn]
     | cplx =>
       simp only [Except.ok.injEq, Prod.mk.injEq] at hc
       obtain ⟨rfl, rfl⟩ := hc
-      refine ⟨c1, c2, ⟨?_, ?_, by simp [keys]⟩⟩
+      refine ⟨c1, c2, ⟨?_, ?_, by simp [keys], by intro p hp; simp at hp; rcases hp with rfl | rfl <;> (dsimp only; decide)⟩⟩
       · intro p hp
         simp at hp
         rcases hp with hp | hp <;> subst hp
@@ -938,7 +941,7 @@ theorem constructFrom_facts {h : Heap} (wf : HeapWF h) (kind : Kind) (mid : Nat)
       | purif =>
         simp only [hk, Except.ok.injEq, Prod.mk.injEq] at hc
         obtain ⟨rfl, rfl⟩ := hc
-        refine ⟨c1, c2, ⟨?_, ?_, by simp [keys]⟩⟩
+        refine ⟨c1, c2, ⟨?_, ?_, by simp [keys], by intro p hp; simp at hp; rcases hp with rfl | rfl <;> (dsimp only; decide)⟩⟩
         · intro p hp
           simp at hp
           rcases hp with hp | hp <;> subst hp
@@ -1082,7 +1085,7 @@ theorem autoload_facts {h : Heap} (wf : HeapWF h) (fs : Files) (kind : Kind) (pa
         obtain ⟨rfl, rfl⟩ := ha
         refine ⟨c1.touches t, c2.trans t.netsGrow, ?_⟩
         have := c3.grow t.netsGrow
-        exact ⟨by rw [hn]; exact this.nets, by rw [hn]; exact this.idsNodup, by rw [hn]; exact this.names⟩
+        exact ⟨by rw [hn]; exact this.nets, by rw [hn]; exact this.idsNodup, by rw [hn]; exact this.names, by rw [hn]; exact this.noUD⟩
 
 theorem step_wf (w : World) (wf : WorldWF w) (op : Op) : WorldWF (step w op).1 := by
   have keep : ∀ (h' : Heap) (files' : Files), HeapWF h' → NetsGrow w.heap h' →
@@ -1188,7 +1191,7 @@ theorem step_wf (w : World) (wf : WorldWF w) (op : Op) : WorldWF (step w op).1 :
           · exact Or.inl h1
           · subst h1
             have := wf.stateOK hs
-            exact Or.inr ⟨this.nets, this.idsNodup, this.names⟩
+            exact Or.inr ⟨this.nets, this.idsNodup, this.names, this.noUD⟩
   | mkMeta mdslot entries =>
     simp only [step]
     exact wf.update _ (wf.heap.allocDict _ (mkDict_nodup entries)) (fun i hi => hi) _ _ _ _
@@ -1244,7 +1247,7 @@ theorem step_wf (w : World) (wf : WorldWF w) (op : Op) : WorldWF (step w op).1 :
       · exact Or.inl h1
       · subst h1
         have := (wf.stateOK hs).grow t.netsGrow
-        exact Or.inr ⟨by rw [hn]; exact this.nets, by rw [hn]; exact this.idsNodup, by rw [hn]; exact this.names⟩
+        exact Or.inr ⟨by rw [hn]; exact this.nets, by rw [hn]; exact this.idsNodup, by rw [hn]; exact this.names, by rw [hn]; exact this.noUD⟩
   | autoload slot kind path rand =>
     simp only [step]
     cases ha : autoload w.heap w.files kind path rand with
